@@ -42,11 +42,11 @@ WindowOKFast(s) ==
         \A i \in rs[j]..j : (C[j] - C[i - 1] - s[j][1]) * s[j][2] <= s[j][1] * (s[j][4] - s[i][3])
 
 \* the earliest, then shortest, bad window of an instance
-FirstBad(s) == CHOOSE p \in BadWindows(s) : \A q \in BadWindows(s) : p[2] < q[2] \/ (p[2] = q[2] /\ p[1] >= q[1])
+FirstBad(s) == LET bad == BadWindows(s) IN CHOOSE p \in bad : \A q \in bad : p[2] < q[2] \/ (p[2] = q[2] /\ p[1] >= q[1])
 
 JudgeInst(x, s) ==
   /\ IF WindowOKFast(s) THEN TRUE
-     ELSE PrintT(<<"MISMATCH", "window-bound", l, x, s[FirstBad(s)[1]][6], s[FirstBad(s)[2]][6]>>)
+     ELSE LET fb == FirstBad(s) IN PrintT(<<"MISMATCH", "window-bound", l, x, s[fb[1]][6], s[fb[2]][6]>>)
   /\ IF ZeroRuleOK(s) THEN TRUE
      ELSE PrintT(<<"MISMATCH", "zero-rule-allows", l, x, 0, 0>>)
 
